@@ -198,5 +198,9 @@ class DotProductComp(ExplicitComponent):
             b = inputs[product['b_name']]
 
             # Use the following for sparse partials
-            partials[product['c_name'], product['a_name']] = b.ravel()
-            partials[product['c_name'], product['b_name']] = a.ravel()
+            if product['a_name'] == product['b_name']:
+                # the same input is used for both operands: d(a.a)/da = 2a
+                partials[product['c_name'], product['a_name']] = 2.0 * a.ravel()
+            else:
+                partials[product['c_name'], product['a_name']] = b.ravel()
+                partials[product['c_name'], product['b_name']] = a.ravel()
